@@ -727,6 +727,145 @@ fn mode_c18cap(args: &std::collections::HashMap<String, String>) -> Value {
         }
     }
 
+    // (a2) Adversaries that mix "update in flight" and "update completed" at the reader's re-check:
+    // after each copy the writer either completes its pending update, or begins one and stays in
+    // it, following a pattern (true = leave the generation odd at the re-check).
+    if shard == 0 || _nshards > 1 {
+        let patterns: Vec<(&str, Vec<bool>)> = vec![
+            ("alternate-odd-even", vec![true, false]),
+            ("odd-odd-even", vec![true, true, false]),
+            ("even-even-odd", vec![false, false, true]),
+            ("odd-x5-even", vec![true, true, true, true, true, false]),
+            ("pseudo-random", (0..97).map(|k| (k * k + 3 * k) % 7 < 3).collect()),
+        ];
+        for (pi, (name, pattern)) in patterns.iter().enumerate() {
+            if (pi as u64) % _nshards != shard {
+                continue;
+            }
+            let path = dir.join(format!("mix{}", pi));
+            std::fs::write(&path, segment_bytes(1, 2, 1)).unwrap();
+            let writer = Rc::new(RefCell::new(Some(ShmWriter::new(&path).unwrap())));
+            let cpath = CString::new(path.to_str().unwrap()).unwrap();
+            let mut reader = ShmReader::new(&cpath).unwrap();
+            let accesses = Rc::new(Cell::new(0u64));
+            let step = Rc::new(Cell::new(0usize));
+            let next = Rc::new(Cell::new(2u64));
+            {
+                let (w, a, st, n, pat, pth) = (writer.clone(), accesses.clone(), step.clone(), next.clone(), pattern.clone(), path.clone());
+                set_handler(Some(Box::new(move |p: &Point| {
+                    if p.site == "load.pre" || p.site == "rword.pre" {
+                        a.set(a.get() + 1);
+                        if a.get() > ACCESS_BOUND + 10 {
+                            std::panic::panic_any("access bound exceeded");
+                        }
+                    }
+                    if p.site == "rword.post" && p.word == 6 {
+                        let leave_odd = pat[st.get() % pat.len()];
+                        st.set(st.get() + 1);
+                        let rec = encode(n.get());
+                        n.set(n.get() + 1);
+                        let mut slot = w.borrow_mut();
+                        let mut wr = slot.take().unwrap();
+                        if leave_odd {
+                            // begin an update and stop in it (after the odd store): the generation stays odd
+                            set_handler(Some(Box::new(move |q: &Point| {
+                                if q.site == "wword.pre" && q.word == 3 {
+                                    std::panic::panic_any(7u8);
+                                }
+                            })));
+                            let _ = std::panic::catch_unwind(std::panic::AssertUnwindSafe(|| wr.write(&rec)));
+                            set_handler(None);
+                            // (the writer object survives the unwinding; creating a new one per
+                            // step would exhaust descriptors, ShmWriter never closes the one it maps)
+                            let _ = &pth;
+                        } else {
+                            wr.write(&rec);
+                        }
+                        *slot = Some(wr);
+                    }
+                })));
+            }
+            let res = std::panic::catch_unwind(std::panic::AssertUnwindSafe(|| match reader.snapshot() {
+                Ok(c) => format!("{:?}", decode(c)),
+                Err(e) => format!("Err({:?})", e),
+            }));
+            set_handler(None);
+            evaluations += 1;
+            max_accesses = max_accesses.max(accesses.get());
+            match res {
+                Ok(r) => {
+                    if r.starts_with("Err") {
+                        capped_calls += 1;
+                    }
+                    samples.push(json!({"case": format!("mixed-adversary-{}", name), "retries_forced": step.get(), "accesses": accesses.get(), "result": r}));
+                }
+                Err(_) => {
+                    let rp = format!("{}/C18-mix-{}.json", replay_dir, name);
+                    vworld::write_json(&rp, &json!({"property":"C18","engine":"c18cap","case":name,"accesses":accesses.get()}));
+                    violations.push(json!({"sig":"unbounded-accesses","detail":format!("writer alternating in-flight / completed updates ({}): snapshot() exceeded {} shared accesses", name, ACCESS_BOUND),"replay":rp}));
+                }
+            }
+            drop(reader);
+            writer.borrow_mut().take();
+        }
+    }
+
+    // (a3) The one-update-per-retry adversary from many start generations (all even ones with
+    // --allgens 1): the retry accounting must not depend on where the counter wraps.
+    let allgens = arg_u64(args, "allgens", 0) == 1;
+    let mut gens: Vec<u16> = vec![2, 4, 31614, 31616, 31618, 32766, 32768, 65530, 65532, 65534];
+    if allgens {
+        gens = (1..=32767u32).map(|k| (2 * k) as u16).collect();
+    } else {
+        let mut gr = Rng::new(arg_u64(args, "seed", 1) ^ 0xC18);
+        for _ in 0..arg_u64(args, "gens", 150) {
+            gens.push((2 * (1 + gr.below(32767))) as u16);
+        }
+    }
+    let mut gen_cases = 0u64;
+    for (gi, g0) in gens.iter().enumerate() {
+        if (gi as u64) % _nshards != shard {
+            continue;
+        }
+        let path = dir.join("gens");
+        std::fs::write(&path, segment_bytes(1, *g0, 1)).unwrap();
+        let writer = Rc::new(RefCell::new(ShmWriter::new(&path).unwrap()));
+        let cpath = CString::new(path.to_str().unwrap()).unwrap();
+        let mut reader = ShmReader::new(&cpath).unwrap();
+        let _ = reader.snapshot();
+        writer.borrow_mut().write(&encode(2));
+        let accesses = Rc::new(Cell::new(0u64));
+        let next = Rc::new(Cell::new(3u64));
+        {
+            let (w, a, n) = (writer.clone(), accesses.clone(), next.clone());
+            set_handler(Some(Box::new(move |p: &Point| {
+                if p.site == "load.pre" || p.site == "rword.pre" {
+                    a.set(a.get() + 1);
+                    if a.get() > ACCESS_BOUND + 10 {
+                        std::panic::panic_any("access bound exceeded");
+                    }
+                }
+                if p.site == "rword.post" && p.word == 6 {
+                    w.borrow_mut().write(&encode(n.get()));
+                    n.set(n.get() + 1);
+                }
+            })));
+        }
+        let res = std::panic::catch_unwind(std::panic::AssertUnwindSafe(|| reader.snapshot().is_ok()));
+        set_handler(None);
+        evaluations += 1;
+        gen_cases += 1;
+        max_accesses = max_accesses.max(accesses.get());
+        if res.is_err() {
+            let rp = format!("{}/C18-gen-{}.json", replay_dir, g0);
+            vworld::write_json(&rp, &json!({"property":"C18","engine":"c18cap","start_generation":g0,"accesses":accesses.get()}));
+            violations.push(json!({"sig":"unbounded-accesses","detail":format!("one complete update per retry, generation {} when the call began: snapshot() exceeded {} shared accesses", g0.wrapping_add(2), ACCESS_BOUND),"replay":rp}));
+        } else if let Ok(false) = res {
+            capped_calls += 1;
+        }
+        drop(reader);
+    }
+
     // (b) Writer stopped for ever at its k-th point, while the reader is at its j-th access.
     let mut stuck_cases = 0u64;
     for j in 0..12u64 {
@@ -880,7 +1019,7 @@ fn mode_c18cap(args: &std::collections::HashMap<String, String>) -> Value {
         }
     }
     let _ = std::fs::remove_dir_all(&dir);
-    json!({"evaluations": evaluations, "stuck_cases": stuck_cases, "new_client_cases": fresh_cases, "max_accesses_per_call": max_accesses, "capped_calls": capped_calls, "violations": violations, "samples": samples})
+    json!({"evaluations": evaluations, "stuck_cases": stuck_cases, "new_client_cases": fresh_cases, "start_generation_cases": gen_cases, "max_accesses_per_call": max_accesses, "capped_calls": capped_calls, "violations": violations, "samples": samples})
 }
 
 fn mode_replay(args: &std::collections::HashMap<String, String>) -> Value {
